@@ -9,7 +9,7 @@ use crate::{Error, Result};
 use arrow::compute::filter_record_batch;
 use arrow_array::cast::AsArray;
 use arrow_array::{Array, BooleanArray, RecordBatch};
-use sqlparser::ast::{BinaryOperator, Expr, SetExpr, Statement, Value};
+use sqlparser::ast::{BinaryOperator, Expr, SetExpr, Statement, UnaryOperator, Value};
 use sqlparser::dialect::GenericDialect;
 use sqlparser::parser::Parser;
 use std::sync::Arc;
@@ -386,6 +386,20 @@ impl QueryFilter {
                 Value::Null => Some(PredicateValue::Null),
                 _ => None,
             },
+            // Signed numeric literals (`-1`, `+0.5`) arrive as a unary operator around the number.
+            Expr::UnaryOp { op, expr } => {
+                let negate = match op {
+                    UnaryOperator::Minus => true,
+                    UnaryOperator::Plus => false,
+                    _ => return None,
+                };
+                match Self::parse_sql_value(expr)? {
+                    PredicateValue::Int64(i) if negate => i.checked_neg().map(PredicateValue::Int64),
+                    PredicateValue::Float64(f) if negate => Some(PredicateValue::Float64(-f)),
+                    number @ (PredicateValue::Int64(_) | PredicateValue::Float64(_)) => Some(number),
+                    _ => None,
+                }
+            }
             _ => None,
         }
     }
